@@ -105,7 +105,7 @@ inductive PEntry where
   | deleted
   | move (path : List String)
   | sub (post : Json → Json → List String)
-  | fn (f : FnName) (args : List String)
+  | fn (f : UserFn) (args : List String)
 
 def PEntry.isSub : PEntry → Bool | .sub _ => true | _ => false
 def PEntry.isDeleted : PEntry → Bool | .deleted => true | _ => false
@@ -174,7 +174,7 @@ def entryViolations (m pre : List (String × PEntry)) (before after : Obj) (k : 
     if (keyed k m).length == 1 then
       match as.mapM argVal with
       | some vals =>
-        match applyFn g vals with
+        match g vals with
         | .ok r => if optBeq (get k after) (some r) then [] else [s!"function:{k}-wrong-value"]
         | .error _ => []
       | none => []
